@@ -42,7 +42,15 @@ class Spy:
         self.n += 1
         occ = self.name_count.get(name, 0)
         self.name_count[name] = occ + 1
-        self.log.append((k, name, str(arg) if arg is not None else None))
+        if isinstance(arg, tuple) and name == "rename":
+            shown = [str(arg[0]), str(arg[1])]
+        elif isinstance(arg, tuple) and name == "open":
+            shown = [str(arg[0])] + [repr(x) for x in arg[1:]]
+        elif arg is None:
+            shown = None
+        else:
+            shown = str(arg)
+        self.log.append((k, name, shown))
         g = self.gates.get(k)
         if g is None and name in self.gate_name and self.gate_name[name][0] == occ:
             g = self.gate_name[name][1]
